@@ -71,8 +71,11 @@ def coq_hygiene():
                 bad.append("%s:%d: %s" % (os.path.relpath(f, VERIF), n, line.strip()))
     return bad
 
-def coq_make(jobs=16, timeout=3000):
-    """Full .vo build of the development through coq_makefile (never -vos/-vok)."""
+def coq_make(jobs=16, timeout=3000, pid=None):
+    """Full .vo build through coq_makefile (never -vos/-vok).  With pid: of Properties/<pid>.vo, everything it depends
+    on, and every model (they are extracted); without: of the whole development.  A property's check does not build
+    the other properties' files, so that an obligation of another property that breaks on the current tree (the
+    generated locksets of C11) is reported for that property only."""
     files = [os.path.relpath(f, COQ) for f in coq_sources()]
     proj = "-Q . BB\n" + "\n".join(files) + "\n"
     pf = os.path.join(COQ, "_CoqProject")
@@ -82,7 +85,10 @@ def coq_make(jobs=16, timeout=3000):
     rc, out = sh(["coq_makefile", "-f", "_CoqProject", "-o", "Makefile.coq"], cwd=COQ, timeout=120)
     if rc != 0:
         return False, out
-    rc, out2 = sh(["make", "-f", "Makefile.coq", "-j%d" % jobs], cwd=COQ, timeout=timeout)
+    targets = []
+    if pid:
+        targets = ["Properties/%s.vo" % pid] + [f[:-2] + ".vo" for f in files if f.startswith("Model/") or f.startswith("Extract/")]
+    rc, out2 = sh(["make", "-f", "Makefile.coq", "-j%d" % jobs] + targets, cwd=COQ, timeout=timeout)
     return rc == 0, out + out2
 
 THEOREM_RE = re.compile(r"^\s*(Theorem|Lemma|Corollary|Example)\s+([A-Za-z0-9_']+)", re.M)
